@@ -11,3 +11,6 @@ import BnpVerif.Props.C15
 #print axioms C15.readValidate_none_iff
 #print axioms C15.chunk_size_independent
 #print axioms C15.validateOld_chunk_dependent
+#print axioms C15.readValidateRows_line
+#print axioms C15.readValidateRows_none_iff
+#print axioms C15.rows_chunk_size_independent
